@@ -126,8 +126,8 @@ extern "C" { int cv_thrown; }
 using namespace celma::prog_args::detail;
 #define CANARY __CPROVER_assert(0, "CV_CANARY")
 // a word: separately allocated block of exactly strlen+1 bytes, arbitrary non-NUL bytes (dashes, '=', brackets, '!' included)
-static char* word(size_t maxlen) { size_t cvin_len; __CPROVER_assume(cvin_len <= maxlen); char* w = new char[cvin_len + 1];
-  for (size_t i = 0; i < WLEN; ++i) if (i < cvin_len) { char cvin_c; __CPROVER_assume(cvin_c != 0); w[i] = cvin_c; } w[cvin_len] = 0; return w; }
+static char* word(size_t maxlen) { size_t cvin_seq_len; __CPROVER_assume(cvin_seq_len <= maxlen); char* w = new char[cvin_seq_len + 1];
+  for (size_t i = 0; i < WLEN; ++i) if (i < cvin_seq_len) { char cvin_seq_c; __CPROVER_assume(cvin_seq_c != 0); w[i] = cvin_seq_c; } w[cvin_seq_len] = 0; return w; }
 // representation invariant of the cursor (every state reachable through the constructor and operator++ satisfies it;
 // that it is established and preserved is itself checked below):
 //   1 <= word index <= argc + 1, and inside argv (index < argc): the character position is at most the word length,
@@ -224,7 +224,35 @@ def jobs(unit, tier, only=None):
 
 
 def replay(unit, job, o, inputs, scratch):
-    return {'outcome': 'unavailable', 'detail': 'no native replay for the C04 units (counterexample inputs are in this file)'}
+    if 'iter' not in job.name:
+        return {'outcome': 'unavailable', 'detail': 'no native replay for this C04 unit (counterexample inputs are in this file)'}
+    # the counterexample is a cursor STATE; the replay iterates the real iterator over the counterexample's argv from the
+    # start with every pattern of remArgStrAsVal() calls: if the state is reachable, ASan sees the same access
+    lens = [x for x in inputs.get('cvin_seq_len', []) if isinstance(x, int)]
+    chars = [x for x in inputs.get('cvin_seq_c', []) if isinstance(x, int)]
+    argc = inputs.get('argc') if isinstance(inputs.get('argc'), int) else len(lens)
+    words, k = [], 0
+    for ln in lens[:max(1, argc)]:
+        ln = max(0, min(ln, 16))
+        words.append(''.join('%02x' % (c & 255) for c in chars[k:k + ln]))
+        k += ln
+    exe = scratch.path('replay', 'c04_iter')
+    if not os.path.exists(exe):
+        cmd = ['g++', '-std=c++17', '-g', '-O0', '-w', '-fsanitize=address,undefined', '-fno-sanitize-recover=all', '-I', core.SRC,
+               os.path.join(core.VERIF, 'replay', 'c04_iter.cpp'), os.path.join(core.SRC, 'library/prog_args/detail/arg_list_parser.cpp'),
+               os.path.join(core.SRC, 'library/prog_args/detail/arg_list_element.cpp'), os.path.join(core.SRC, 'library/prog_args/argument_error.cpp'), '-o', exe]
+        rc, out, err, s = core.run(cmd, timeout=300, limit=False)
+        if rc != 0:
+            return {'outcome': 'unavailable', 'detail': 'replay build failed: ' + err[-800:]}
+    last = ''
+    for pattern in range(64):
+        args = [exe, str(pattern)] + ['w=' + w for w in words]
+        rc, out, err, s = core.run(args, timeout=30, limit=False, env={'ASAN_OPTIONS': 'detect_leaks=0'})
+        last = (out + err).strip()
+        if rc != 0:
+            return {'outcome': 'reproduced', 'cmd': 'replay/c04_iter.cpp: ' + ' '.join(args[1:]), 'args': {'argv': args[1:]}, 'output': last[-1500:]}
+    return {'outcome': 'not-reproduced', 'cmd': 'replay/c04_iter.cpp: patterns 0..63 ' + ' '.join('w=' + w for w in words), 'args': {'argv': ['0'] + ['w=' + w for w in words]},
+            'output': last[-600:]}
 
 
 def evidence_info(unit, tier):
